@@ -85,6 +85,11 @@ def _docs(spec):
         if spec["kind"] == "pkg":
             pkg = C09.build_package(spec)
             out.append(("Package", _strict_loads(pkg._to_serial().model_dump_json()), None))
+            # the documents the envelope writers emit (text and binary envelope, JSON format)
+            text = pkg.to_str()
+            out.append(("Package", _strict_loads(text[text.index("{"):]), None))
+            raw = pkg.to_bytes()
+            out.append(("Package", _strict_loads(raw[raw.index(b"{"):].decode("utf-8")), None))
             for e in pkg.extensions:
                 out.append(("Extension", _strict_loads(e.to_json()), None))
             for m in pkg.modules:
